@@ -69,6 +69,7 @@ class Ctx:
         self._distinct: set[str] = set()
         self._known = json.loads(KNOWN.read_text()) if KNOWN.exists() else {"findings": [], "fixed": []}
         self._nviol_files = 0
+        self.viol_counts: dict[str, int] = {}
 
     # ---- tiers -----------------------------------------------------------
     @property
@@ -121,7 +122,8 @@ class Ctx:
                 if not any(h["key"] == key for h in self.known_hits):
                     self.known_hits.append({"key": key, "what": f.get("what", clause)})
                 return
-        if len(self.violations) >= 200:
+        self.viol_counts[key] = self.viol_counts.get(key, 0) + 1
+        if self.viol_counts[key] > 1 or len(self.viol_counts) > 80:
             self.violations.append({"key": key, "clause": clause, "truncated": True})
             return
         rec = {"property": self.pid, "key": key, "clause": clause, "detail": detail[:2000], "case": jsonable(case)}
@@ -129,8 +131,7 @@ class Ctx:
         d.mkdir(parents=True, exist_ok=True)
         self._nviol_files += 1
         p = d / f"{self.tier}-{self.seed}-{self._nviol_files:03d}.json"
-        if self._nviol_files <= 25:
-            p.write_text(json.dumps(rec, indent=1))
+        p.write_text(json.dumps(rec, indent=1))
         rec["replay"] = str(p)
         self.violations.append(rec)
 
@@ -168,7 +169,7 @@ class Ctx:
                 continue
             seen.add(v["key"])
             print(f"VIOLATION property={self.pid} replay={v['replay']}")
-            print(f"  clause: {v['clause']}  key: {v['key']}")
+            print(f"  clause: {v['clause']}  key: {v['key']}  occurrences: {self.viol_counts.get(v['key'], 1)}")
             if v.get("detail"):
                 print("  " + v["detail"].replace("\n", "\n  ")[:600])
         print(
